@@ -220,4 +220,16 @@ theorem reduceO_errThrough {α β} (f : β → α → Except Err β) (seed : Opt
   cases seed <;>
     exact (Op.errThrough_of_fwd _ (scanO_fwd f _ inj)).comp (Op.errThrough_of_fwd _ (lastOrDefaultO_fwd _)) (lastOrDefaultO_termProp _)
 
+/-- the end-to-end statement as one proposition -/
+def Op.DeliversAt {α β} (op : Op α β) (lag : Bool) (pre : List (Notif α)) (x : α) (e : Err) : Prop :=
+  noTerm (op.out lag pre) → ∀ post,
+    op.out lag (pre ++ .next x :: post) = op.out lag pre ++ [.error e]
+    ∧ op.escapes lag (pre ++ .next x :: post) = []
+    ∧ (op.final lag (pre ++ .next x :: post)).down = true
+    ∧ (lag = false → (op.final lag (pre ++ .next x :: post)).up = true)
+
+theorem Op.deliversAt {α β} (op : Op α β) (hA : op.NoEsc) {lag : Bool} {pre : List (Notif α)} {x : α} {e : Err}
+    (hB : op.RaisesAt lag pre x e) : op.DeliversAt lag pre x e :=
+  fun hlive post => Op.raise_end_to_end op hA lag pre post x e hB hlive
+
 end Agg
